@@ -174,6 +174,11 @@ def poll_value(ex, st, fv, fptr, cx, cont, out_ty=None):
         name = fv.origin + '!out'
         mode = ex.cfg.get('env_pending')
         val = ex.mk_sym(ot, name) if ot else Tree({}, name, None)
+        hook = ex.cfg.get('env_assume')
+        if hook is not None:
+            m = re.match(r'^ev(\d+)$', fv.origin)
+            if m and int(m.group(1)) < len(st.trace):
+                hook(ex, st, st.trace[int(m.group(1))].name + '!out', val, ot)
         return cont(ex, st, ready(val))
     if isinstance(fv, Ptr):
         return poll_value(ex, st, deref(ex, st, fv), fv, cx, cont, out_ty)
@@ -301,6 +306,14 @@ def find_from(ex, F, E):
     hs = set(c.text_hash for c in cands)
     if len(hs) == 1:
         return cands[0]
+    if len(hs) > 1:
+        # same last segment (several `Error` types): compare module-qualified paths
+        def norm(t):
+            return re.sub(r'<.*>', '', t.strip()).replace('std::', '').replace('hyper::', 'http::') if False else re.sub(r'<.*>', '', t.strip())
+        e = norm(E)
+        best = [c for c in cands if norm(c.args[0][1]) == e or norm(c.args[0][1]).endswith('::' + e) or e.endswith('::' + norm(c.args[0][1]))]
+        if len(set(c.text_hash for c in best)) == 1:
+            return best[0]
     return None
 
 
@@ -1031,3 +1044,63 @@ def cut_do_omaha(ex):
 
 def cut_report_check_interval(ex):
     ex.model_patterns.insert(0, (re.compile(r'^StateMachine::<.*>::report_check_interval$'), m_report_check_interval_cut))
+
+
+# ------------------------------------------------------------------ bounded byte strings (header values)
+# A HeaderValue is `len` (0..=N) and N byte variables; N = ex.cfg['max_header_bytes'] (stated bound).
+
+def hv_bytes(ex, st, hv):
+    hv = deref_all(ex, st, hv)
+    if isinstance(hv, Obj) and hv.kind == 'bstr':
+        return hv.data
+    if not (isinstance(hv, Tree) and hv.origin is not None):
+        raise Inconclusive('header value %r' % (hv,))
+    n = ex.cfg.get('max_header_bytes', 12)
+    ln = z3.Int(hv.origin + '.len')
+    ex.axioms[hv.origin + '.len'] = z3.And(ln >= 0, ln <= n)
+    bs = []
+    for i in range(n):
+        b = z3.Int('%s.b%d' % (hv.origin, i))
+        ex.axioms['%s.b%d' % (hv.origin, i)] = z3.And(b >= 0, b <= 255)
+        bs.append(b)
+    return (ln, tuple(bs))
+
+
+@pattern(r'^(http::)?(header::)?HeaderValue::to_str$')
+def m_hv_to_str(ex, st, args, dty, canon):
+    ln, bs = hv_bytes(ex, st, args[0])
+    # http::HeaderValue::to_str: every byte must be visible ASCII (32..=126) or tab
+    vis = z3.And(*[z3.Implies(i < ln, z3.Or(z3.And(b >= 32, b < 127), b == 9)) for i, b in enumerate(bs)])
+    return models.sym_enum(z3.If(vis, I(0), I(1)), {0: [Obj('bstr', (ln, bs))], 1: [Tree({}, None, 'ToStrError')]}, 'Result')
+
+
+def parse_uint_spec(ln, bs, bits):
+    """(valid, value) of Rust's <uN as FromStr>::from_str on the byte string: optional leading '+',
+    at least one digit, digits only, value <= MAX"""
+    n = len(bs)
+    plus = z3.And(ln >= 1, bs[0] == 43)
+    start = z3.If(plus, 1, 0)
+    digits_ok = z3.And(*[z3.Implies(z3.And(i >= start, i < ln), z3.And(b >= 48, b <= 57)) for i, b in enumerate(bs)])
+    v = z3.IntVal(0)
+    for i, b in enumerate(bs):
+        v = z3.If(z3.And(i >= start, i < ln), v * 10 + (b - 48), v)
+    valid = z3.And(ln - start >= 1, digits_ok, v <= (1 << bits) - 1)
+    return valid, v
+
+
+@pattern(r'^<impl str>::parse::<(u8|u16|u32|u64|usize)>$|^core::str::<impl str>::parse::<(u8|u16|u32|u64|usize)>$')
+def m_str_parse_uint(ex, st, args, dty, canon):
+    ty = re.search(r'parse::<(\w+)>', canon[4]).group(1)
+    s = deref_all(ex, st, args[0])
+    if not (isinstance(s, Obj) and s.kind == 'bstr'):
+        raise Inconclusive('str::parse on %r' % (s,))
+    ln, bs = s.data
+    valid, v = parse_uint_spec(ln, bs, INT_BITS[ty])
+    return models.sym_enum(z3.If(valid, I(0), I(1)), {0: [Sc(v, ty)], 1: [Tree({}, None, 'ParseIntError')]}, 'Result')
+
+
+# anyhow error construction: opaque values (never inspected by the state machine)
+@pattern(r'anyhow::(__private|kind)|TraitKind>::anyhow_kind$|^anyhow::|kind::Trait::new$|__private::must_use$|^Trait::new$')
+def m_anyhow(ex, st, args, dty, canon):
+    fr = st.frames[-1]
+    return ex.mk_sym(dty, 'anyhow!%s:%d:%d' % (fr.fn.text_hash, fr.bb, fr.visits.get(fr.bb, 0)))
